@@ -1013,30 +1013,136 @@ func FuzzTypedData(f *testing.F) {
 	})
 }
 
-// FuzzMutants drives the structured mutant generator from the fuzzer's bytes
-// (coverage-guided, structure-aware).
-func FuzzMutants(f *testing.F) {
-	// rapid consumes 8 input bytes per draw and gives up on a short input, so the
-	// seeds are long deterministic byte streams (xorshift); the fuzzer mutates them
-	for seed := uint64(1); seed <= 6; seed++ {
-		buf := make([]byte, 24<<10)
-		x := seed * 0x9E3779B97F4A7C15
-		for i := range buf {
-			x ^= x << 13
-			x ^= x >> 7
-			x ^= x << 17
-			buf[i] = byte(x >> 32)
+// ---- structure-aware native fuzzing: a compact byte program of tree mutations
+
+var fuzzJunk = []string{`null`, `true`, `false`, `0`, `1`, `-1`, `1.5`, `1e400`, `-0`, `9007199254740993`, `18446744073709551616`,
+	`115792089237316195423570985008687907853269984665640564039457584007913129639936`, `""`, `"x"`, `"0x"`, `"0x01"`, `"-1"`, `"true"`, `"uint256"`,
+	`{}`, `[]`, `[null]`, `[[]]`, `[{}]`, `{"a":1}`, `[1,2,3]`, `"0x0000000000000000000000000000000000000001"`}
+
+// byteMutate applies one mutation encoded in four bytes to the tree.
+func byteMutate(root *eip712ref.JNode, op, a, b, c byte) {
+	var slots []slot
+	collect(root, 0, &slots)
+	if len(slots) == 0 {
+		return
+	}
+	s := slots[(int(a)<<8|int(b))%len(slots)]
+	cur := s.parent.Vals[s.idx]
+	junk := func() *eip712ref.JNode {
+		n, _ := eip712ref.ParseJSON([]byte(fuzzJunk[int(c)%len(fuzzJunk)]))
+		return n
+	}
+	switch op % 13 {
+	case 0:
+		s.parent.Vals[s.idx] = eip712ref.JNull()
+	case 1:
+		s.parent.Vals[s.idx] = junk()
+	case 2:
+		if s.parent.Kind == 'o' {
+			s.parent.Keys = append(s.parent.Keys[:s.idx:s.idx], s.parent.Keys[s.idx+1:]...)
 		}
-		f.Add(buf)
+		s.parent.Vals = append(s.parent.Vals[:s.idx:s.idx], s.parent.Vals[s.idx+1:]...)
+	case 3:
+		if s.parent.Kind == 'a' {
+			s.parent.Vals = append(s.parent.Vals, cur.Clone())
+		} else {
+			s.parent.Set(s.parent.Keys[s.idx]+"2", cur.Clone())
+		}
+	case 4:
+		s.parent.Vals[s.idx] = eip712ref.JArr(cur)
+	case 5:
+		if (cur.Kind == 'a' || cur.Kind == 'o') && len(cur.Vals) > 0 {
+			s.parent.Vals[s.idx] = cur.Vals[int(c)%len(cur.Vals)]
+		} else {
+			s.parent.Vals[s.idx] = eip712ref.JObj().Set("v", cur)
+		}
+	case 6:
+		if cur.Kind == 's' {
+			cur.Str += badSuffixes[int(c)%len(badSuffixes)]
+		} else {
+			s.parent.Vals[s.idx] = eip712ref.JStr(cur.Text())
+		}
+	case 7:
+		s.parent.Vals[s.idx] = eip712ref.JStr(oddTypes[int(c)%len(oddTypes)])
+	case 8:
+		s.parent.Vals[s.idx] = eip712ref.JStr(oddNames[int(c)%len(oddNames)])
+	case 9:
+		s2 := slots[int(c)%len(slots)]
+		x, y := s.parent.Vals[s.idx].Clone(), s2.parent.Vals[s2.idx].Clone()
+		s.parent.Vals[s.idx], s2.parent.Vals[s2.idx] = y, x
+	case 10:
+		switch cur.Kind {
+		case 'o':
+			s.parent.Vals[s.idx] = &eip712ref.JNode{Kind: 'a', Vals: cur.Vals}
+		case 'a':
+			o := eip712ref.JObj()
+			for i, v := range cur.Vals {
+				o.Set(fmt.Sprint(i), v)
+			}
+			s.parent.Vals[s.idx] = o
+		default:
+			s.parent.Vals[s.idx] = eip712ref.JArr(cur, cur.Clone())
+		}
+	case 11:
+		if s.parent.Kind == 'o' {
+			k := s.parent.Keys[s.idx]
+			s.parent.Keys[s.idx] = []string{strings.ToUpper(k), k + " ", "", k + k, "types", "message", "name", "type"}[int(c)%8]
+		}
+	default:
+		// point a string (typically a member type or primaryType) at one of the document's own keys
+		var keys []string
+		for _, sl := range slots {
+			if sl.parent.Kind == 'o' {
+				keys = append(keys, sl.parent.Keys[sl.idx])
+			}
+		}
+		if len(keys) > 0 {
+			s.parent.Vals[s.idx] = eip712ref.JStr(keys[int(c)%len(keys)] + []string{"", "[]", "[2]"}[int(op/13)%3])
+		}
+	}
+}
+
+// FuzzMutants is the structure-aware target: a base document (one of the seeds /
+// regression documents) plus a byte program of tree mutations (4 bytes each).
+func FuzzMutants(f *testing.F) {
+	bases := append([]string{}, fuzzSeeds...)
+	files, _ := filepath.Glob(filepath.Join(evid.VerifDir(), "corpus", "C14", "*.json"))
+	sort.Strings(files)
+	for _, p := range files {
+		var rf evid.ReplayFile
+		var c DocCase
+		if b, err := os.ReadFile(p); err == nil && json.Unmarshal(b, &rf) == nil && rf.Kind == "doc" && json.Unmarshal(rf.Case, &c) == nil && c.Doc != "" {
+			bases = append(bases, c.Doc)
+		}
+	}
+	var trees []*eip712ref.JNode
+	for _, b := range bases {
+		if n, err := eip712ref.ParseJSON([]byte(b)); err == nil {
+			trees = append(trees, n)
+		}
+	}
+	for i := range trees {
+		f.Add(uint8(i), []byte{})
+		f.Add(uint8(i), []byte{1, 0, 7, 3})
+		f.Add(uint8(i), []byte{6, 0, 9, 2, 2, 0, 20, 0})
 	}
 	rec := evid.Start("C14", rule)
 	k := evid.NewKind(rec, "doc", judgeDoc)
-	f.Fuzz(rapid.MakeFuzz(func(rt *rapid.T) {
-		text, _ := genMutant(rt)
+	f.Fuzz(func(t *testing.T, base uint8, prog []byte) {
+		if len(prog) > 64 {
+			prog = prog[:64]
+		}
+		root := trees[int(base)%len(trees)].Clone()
+		for i := 0; i+4 <= len(prog); i += 4 {
+			byteMutate(root, prog[i], prog[i+1], prog[i+2], prog[i+3])
+		}
+		text := []byte(root.Text())
+		if len(text) > maxDocBytes {
+			return
+		}
 		vs, _, _ := judgeText(text)
 		if len(vs) > 0 {
-			k.Fail(nil, caseOf(text), vs)
-			rt.Fatalf("C14/doc: %s: %s", vs[0].Clause, vs[0].Detail)
+			k.Fail(t, caseOf(text), vs)
 		}
-	}))
+	})
 }
